@@ -42,17 +42,21 @@ fn check(ctx: &Ctx, id: &str, ops: &[Op], masks: &[u8]) {
     }
 }
 
-/// Raw (possibly malformed) byte strings: an opcode byte counts unless it is one of the (up to) 8 bytes after a Push opcode; never a panic.
+/// Raw byte strings: never a panic; on well-formed ones an opcode byte counts unless it is one of the 8 bytes after a Push opcode.
 fn check_raw(ctx: &Ctx, id: &str, bytes: &[u8], push_byte: u8, eff_bytes: &[u8], masks: &[u8]) {
     if !ctx.want(id) {
         return;
     }
     let mut want = 0u8;
     let mut i = 0;
+    // C15 speaks about well-formed bytecode only; on anything else (invalid opcode bytes, a truncated Push) the scan must merely not panic (C06)
+    let mut well_formed = true;
     while i < bytes.len() {
         if bytes[i] == push_byte {
             i += 9;
+            well_formed &= i <= bytes.len();
         } else {
+            well_formed &= asm::Opcode::try_from(bytes[i]).is_ok();
             if let Some(e) = eff_bytes.iter().position(|b| *b == bytes[i]) {
                 want |= flag(&[asm::StateRead::KeyRange.into(), asm::StateRead::KeyRangeExtern.into(), asm::Access::ThisAddress.into(), asm::Access::ThisContractAddress.into(),
                     asm::StateRead::PostKeyRange.into(), asm::StateRead::PostKeyRangeExtern.into()][e]);
@@ -63,6 +67,7 @@ fn check_raw(ctx: &Ctx, id: &str, bytes: &[u8], push_byte: u8, eff_bytes: &[u8],
     let r = std::panic::catch_unwind(|| masks.iter().map(|m| (*m, bytes_contains_any(bytes, Effects::from_bits_truncate(*m)))).filter(|(m, got)| *got != (want & m != 0)).collect::<Vec<_>>());
     match r {
         Err(_) => ctx.fail(id, "effect analysis never panics", format!("PANIC: bytes_contains_any on bytes {:?}", bytes)),
+        Ok(_) if !well_formed => ctx.pass(),
         Ok(bad) => match bad.first() {
             None => ctx.pass(),
             Some((m, got)) => ctx.fail(id, "bytes_contains_any(bytes, set) is true exactly when some op (not an immediate byte) has an effect in the set",
